@@ -23,7 +23,11 @@ try:
     res["demo_with_change_rc"], res["demo_without_change_rc"] = d1.returncode, d0.returncode
     res["checks"] = {}
     for c in checks:
-        r = subprocess.run(["/verif/check", c], env={**os.environ, "HAIWAY_REPO": wt, "VERIF_NO_EVIDENCE": "1"}, capture_output=True, text=True)
+        for _try in range(8):
+            r = subprocess.run(["/verif/check", c], env={**os.environ, "HAIWAY_REPO": wt, "VERIF_NO_EVIDENCE": "1"}, capture_output=True, text=True)
+            if r.returncode != 2:
+                break
+            time.sleep(90)  # infrastructure error (another builder mid-edit in lean/): wait and retry
         v = [l for l in r.stdout.splitlines() if l.startswith("VIOLATION")]
         res["checks"][c] = {"rc": r.returncode, "violations": [x[:300] for x in v[:3]], "summary": (r.stdout.strip().splitlines() or [""])[-1][:300]}
         if v:
